@@ -77,8 +77,8 @@ func loadVariants(vd, prop string) []variant {
 		if json.Unmarshal(mb, &m) != nil || m.Property != prop {
 			continue
 		}
-		if m.Detected != nil && !*m.Detected {
-			continue // recorded as a miss in DESIGN.md; not part of the sensitivity gate
+		if m.Detected == nil || !*m.Detected {
+			continue // not evaluated yet, or recorded as a miss in DESIGN.md: not part of the sensitivity gate
 		}
 		out = append(out, variant{Name: "seeded/" + e.Name(), Kind: "mutant", Patch: filepath.Join("seeded", e.Name(), "patch.diff"), Expect: m.Expect})
 	}
